@@ -205,7 +205,7 @@ func checkGoldUnmarshal(t vlib.TB, b []byte, kind string, valid bool, orig *gold
 func TestC09Goldilocks(t *testing.T) {
 	defer vlib.Done()
 	selftest(t)
-	vlib.Check(t, vlib.N(900, 8000), func(t *rapid.T) {
+	vlib.Check(t, vlib.N(900, 4000), func(t *rapid.T) {
 		kind := rapid.SampledFrom(goldKinds).Draw(t, "kind")
 		b, valid, orig := genGold(t, kind)
 		checkGoldFromBytes(t, b, kind, valid, orig)
@@ -469,7 +469,7 @@ func checkCurve4Q(t *rapid.T, b []byte, kind string, ref decode.FQResult) {
 func TestC09FourQ(t *testing.T) {
 	defer vlib.Done()
 	selftest(t)
-	vlib.Check(t, vlib.N(900, 8000), func(t *rapid.T) {
+	vlib.Check(t, vlib.N(900, 4000), func(t *rapid.T) {
 		kind := rapid.SampledFrom(fourqKinds).Draw(t, "kind")
 		b, valid, orig := genFourQ(t, kind)
 		_, ref := checkFourQ(t, b, kind, valid, orig)
